@@ -15,6 +15,7 @@ GATE_CALS = [
     Tpl("c2ff", "DEFCAL {g} {q} {r}:\n\tPRAGMA {v}", v=("str", ["va", "vb"]),g=("str", G2), q=("int", Q), r=("int", Q)),
     Tpl("c2fv", "DEFCAL {g} {q} w:\n\tPRAGMA {v}", v=("str", ["va", "vb"]),g=("str", G2), q=("int", Q)),
     Tpl("c2vv", "DEFCAL {g} v w:\n\tPRAGMA {v}", v=("str", ["va", "vb"]),g=("str", G2)),
+    Tpl("c2vf", "DEFCAL {g} w {q}:\n\tPRAGMA {v}", v=("str", ["va", "vb"]), g=("str", G2), q=("int", Q)),
 ]
 GATES = [
     Tpl("g1", "{g} {q}", g=("str", G2), q=("int", Q)),
@@ -31,6 +32,8 @@ MEAS_CALS = [
     Tpl("m-f", "DEFCAL MEASURE {q}:\n\tPRAGMA {v}", v=("str", ["va", "vb"]),q=("int", Q)),
     Tpl("m-v", "DEFCAL MEASURE v:\n\tPRAGMA {v}", v=("str", ["va", "vb"])),
     Tpl("m-named-f-t", "DEFCAL MEASURE!mid {q} addr:\n\tPRAGMA {v}", v=("str", ["va", "vb"]),q=("int", Q)),
+    # the target parameter's name is part of the signature: a second exact match that does not replace the first
+    Tpl("m-f-t2", "DEFCAL MEASURE {q} dest:\n\tPRAGMA {v}", v=("str", ["va", "vb"]), q=("int", Q)),
 ]
 MEASURES = [
     Tpl("q-t", "MEASURE {q} ro[0]", q=("int", Q)),
@@ -127,11 +130,16 @@ class C16(Check):
         td = m.td
         kind = m.choose([("gate", None), ("measure", None)])
         cal_t, q_t = (GATE_CALS, GATES) if kind == "gate" else (MEAS_CALS, MEASURES)
-        k = m.choose([(j, None) for j in range(0, self.K[m.tier] + 1)])
-        shapes = [m.choose([(t.name, None) for t in cal_t]) for _ in range(k)]
-        qn = m.choose([(t.name, None) for t in q_t])
+        K = self.K[m.tier]
+        # one more definition when all of them are two-qubit gate calibrations queried by a two-qubit gate ("the match with the most
+        # fixed qubits wins" needs three candidates with different numbers of fixed qubits to tell "best so far" from "previous")
+        k = m.choose([(j, None) for j in range(0, K + (2 if kind == "gate" else 1))])
+        focus = k > K
+        pool = [t.name for t in cal_t] if not focus else ["c2ff", "c2fv", "c2vf", "c2vv"]
+        shapes = [m.choose([(x, None) for x in pool]) for _ in range(k)]
+        qn = m.choose([(t.name, None) for t in q_t]) if not focus else "g2"
         # optionally the first definition is redefined (identical signature, another body) after the others
-        redef = k >= 2 and m.choose([(False, None), (True, None)])
+        redef = k >= 2 and not focus and m.choose([(False, None), (True, None)])
         m.ctx = {"kind": kind, "shapes": shapes, "query": qn, "redef": bool(redef)}
         by = {t.name: t for t in cal_t + q_t}
         prog = m.call_path("Program::new", [])
